@@ -1053,6 +1053,71 @@ func c06InFlight() []Directed {
 		{"inflight-options-removeall-with-children", []string{"GET"}, "OPTIONS", func(r *mux.Router[*mon.Hnd], _ *mon.Env) { r.Remove(p) }, []string{"GET,HEAD,OPTIONS"}},
 	}
 	var out []Directed
+	// Process-wide tables are filled lazily: the first use of a method combination, of a compiled expression, happens
+	// once per process. This case runs first in a fresh process: eight goroutines, each with a WithLock router of its
+	// own, register routes with method sets nobody used before and build non-strict URLs of patterns whose regexp text
+	// is new, all at once (the race detector is the judge; the answers are checked too).
+	out = append(out, Directed{ID: "first-use-of-process-wide-tables", Run: func(c *Ctx) {
+		all := []string{"GET", "POST", "DELETE", "PUT", "PATCH", "CONNECT"}
+		var wg sync.WaitGroup
+		var mu sync.Mutex
+		var bad []string
+		start := make(chan struct{})
+		for g := 0; g < 8; g++ {
+			wg.Add(1)
+			go func(g int) {
+				defer wg.Done()
+				env := mon.NewEnv()
+				r := env.NewRouter(fmt.Sprintf("first%d", g), mux.WithLock(true))
+				<-start
+				for i := 1; i < 64; i++ {
+					mask := (i*8 + g) % 64
+					if mask == 0 {
+						continue
+					}
+					var ms []string
+					for b, m := range all {
+						if mask&(1<<b) != 0 {
+							ms = append(ms, m)
+						}
+					}
+					p := fmt.Sprintf("/first/%d/%d/{id:\\d+}.g%dx%d", g, i, g, i)
+					r.Handle(p, env.NewHnd(mon.KRoute, p), nil, ms...)
+					want := append([]string{"OPTIONS"}, ms...)
+					if mask&1 != 0 {
+						want = append(want, "HEAD")
+					}
+					sort.Strings(want)
+					if got := strings.Join(mon.SortedCopy(takeRoutes(r)[p]), ","); got != strings.Join(want, ",") {
+						mu.Lock()
+						bad = append(bad, fmt.Sprintf("Routes()[%q]=%s, registered %v", p, got, ms))
+						mu.Unlock()
+						return
+					}
+					u, err := r.URL(false, p, map[string]string{"id": "7"})
+					if wantU := fmt.Sprintf("/first/%d/%d/7.g%dx%d", g, i, g, i); err != nil || u != wantU {
+						mu.Lock()
+						bad = append(bad, fmt.Sprintf("URL(false,%q)=%q,%v", p, u, err))
+						mu.Unlock()
+						return
+					}
+					if err := mux.CheckSyntax(p); err != nil {
+						mu.Lock()
+						bad = append(bad, fmt.Sprintf("CheckSyntax(%q)=%v", p, err))
+						mu.Unlock()
+						return
+					}
+				}
+			}(g)
+		}
+		close(start)
+		wg.Wait()
+		c.EvalN(8 * 63)
+		c.Class("first_use_of_process_wide_tables")
+		if len(bad) > 0 {
+			c.Violate("first concurrent use of method sets / expressions in a fresh process: "+bad[0], map[string]any{"more": bad})
+		}
+	}})
 	// the requests that select the root node ("*" and the empty path, any method) must leave the tree lock free: a write
 	// afterwards completes. Bounded progress instead of "eventually": one Handle on an otherwise idle router gets 30 s.
 	out = append(out, Directed{ID: "lock-free-after-root-requests", Run: func(c *Ctx) {
